@@ -43,18 +43,28 @@ def replay(p):
             bad = not ok or not (bl < 0 < bu)
         else:
             dA, dB = p['dims']
-            rho = rand_dm(dA * dB, rng)
-            bl, bu = E.get_ppt_boundary(rho, (dA, dB))
+            bshape = tuple(p.get('batch', ()))
+            within = p.get('within_dm', True)
+            B = int(np.prod(bshape)) if bshape else 1
+            rhos = [rand_dm(dA * dB, rng) for _ in range(B)]
+            arg = np.stack(rhos).reshape(bshape + (dA * dB, dA * dB))
+            kw = {'dm_norm': numqi.gellmann.dm_to_gellmann_norm(arg)} if p.get('norm_given') else {}
+            try:
+                bl_a, bu_a = E.get_ppt_boundary(arg, (dA, dB), within_dm=within, **kw)
+            except Exception as e:
+                return True, f'{what} {p}: raises {type(e).__name__}: {e}'
+            if np.shape(bl_a) != bshape:
+                return True, f'{what} {p}: output shape {np.shape(bl_a)}'
             pt = lambda x: x.reshape(dA, dB, dA, dB).transpose(0, 3, 2, 1).reshape(dA * dB, dA * dB)
+            mineig = (lambda x: min(np.linalg.eigvalsh(x).min(), np.linalg.eigvalsh(pt(x)).min())) if within else (lambda x: np.linalg.eigvalsh(pt(x)).min())
             ok = True
-            for beta in (bu, bl):
-                x0 = E.hf_interpolate_dm(rho, beta=beta)
-                m0 = min(np.linalg.eigvalsh(x0).min(), np.linalg.eigvalsh(pt(x0)).min())
-                xin = E.hf_interpolate_dm(rho, beta=beta * (1 - 1e-4))
-                xout = E.hf_interpolate_dm(rho, beta=beta * (1 + 1e-4))
-                mi = min(np.linalg.eigvalsh(xin).min(), np.linalg.eigvalsh(pt(xin)).min())
-                mo = min(np.linalg.eigvalsh(xout).min(), np.linalg.eigvalsh(pt(xout)).min())
-                ok &= abs(m0) < 1e-9 and mi > 0 and mo < 0
+            for rho, bl, bu in zip(rhos, np.reshape(bl_a, -1), np.reshape(bu_a, -1)):
+                for beta in (bu, bl):
+                    m0 = mineig(E.hf_interpolate_dm(rho, beta=beta))
+                    mi = mineig(E.hf_interpolate_dm(rho, beta=beta * (1 - 1e-4)))
+                    mo = mineig(E.hf_interpolate_dm(rho, beta=beta * (1 + 1e-4)))
+                    ok &= abs(m0) < 1e-9 and mi > 0 and mo < 0
+                ok &= bool(bl < 0 < bu)
             bad = not ok
         if bad:
             return True, f'{what} {p}: reported boundary is not the exact threshold (trial {trial})'
@@ -143,36 +153,83 @@ def run(chk):
             chk.add(f'reach boundary N={N}', pre, ir.TRUE, kind='reach')
             _cm.__exit__(None, None, None)
     chk.stub('np.linalg.eigvalsh -> sorted symbolic eigenvalues of the captured matrix (sum 1, not all equal); spectral mapping of the ray supplied as the contract')
-    # ---- (c) PPT boundary: the matrix handed to the eigen-solver first is the partial transpose; the result is the max/min combination
-    for dA, dB in ((2, 2), (2, 3)):
+    # ---- (c) PPT boundary: eigvalsh is an uninterpreted function of the matrix it receives (same matrix -> same sorted symbolic spectrum);
+    #      the returned pair must be the exact threshold of "PSD and PPT" (within_dm) / "PPT" along the ray, per batch item
+    chk.stub('get_ppt_boundary: np.linalg.eigvalsh -> uninterpreted function matrix -> sorted spectrum (memoised on the symbolic entries; contract: sum 1, lam_min < 1/N < lam_max); '
+             'spectral mapping along the ray for dm and for its partial transpose')
+    for (dA, dB), bshape, within, norm_given in itertools.product(((2, 2), (2, 3)), ((), (2,), (3,)), (True, False), (True, False)):
+        if quick and ((dA, dB) == (2, 3) and (bshape == (3,) or not norm_given)):
+            continue
+        if not norm_given and bshape != ():
+            continue
         chk.configurations += 1
         N = dA * dB
-        dm = H.herm_array(f'p{dA}{dB}_', N)
-        nrm = S.sc_var(f'pn{dA}{dB}')
-        captured = []
-        lam_sets = []
+        B = int(np.prod(bshape)) if bshape else 1
+        tag = f'{dA}{dB}b{B}{"w" if within else "p"}{"n" if norm_given else "c"}'
+        dms = [H.herm_array(f'p{tag}_{b}_', N) for b in range(B)]
+        dm = A.sym_array(np.stack([A.plain(x) for x in dms]).reshape(bshape + (N, N)), np.complex128)
+        nrms = [S.sc_var(f'pn{tag}_{b}') for b in range(B)]
+        nrm_arg = (A.sym_array(np.array(nrms, dtype=object).reshape(bshape), np.float64) if bshape else nrms[0]) if norm_given else None
+        cfg = f'({dA},{dB}) batch={bshape} within_dm={within} dm_norm={"given" if norm_given else "computed"}'
 
-        def eig_stub2(x):
-            k = len(captured)
-            captured.append(x)
-            ls = [S.sc_var(f'pl{dA}{dB}_{k}_{i}') for i in range(N)]
-            lam_sets.append(ls)
-            return A.sym_array(np.array(ls, dtype=object).reshape(1, N), np.float64)
-        fac = facade.make_np_facade(linalg={'eigvalsh': eig_stub2})
-        paths, st = H.run_paths(lambda: E.get_ppt_boundary(dm, (dA, dB), dm_norm=nrm), [(nrm > 0).n], np_facade=fac, feas_timeout_ms=1000, max_paths=64)
+        def spectrum(mat, N=N):
+            """uninterpreted eigvalsh: memo on the entries' term identity (per path context)"""
+            c = S.ctx()
+            tab = c.__dict__.setdefault('_eig', {})
+            key = tuple((S.as_sc(e).re.id, S.as_sc(e).im.id) for e in A.plain(mat).reshape(-1))
+            ls = tab.get(key)
+            if ls is None:
+                k = len(tab)
+                ls = [SC(c.fresh(f'eig{k}_{i}')) for i in range(N)]
+                c.facts += [(ls[i] <= ls[i + 1]).n for i in range(N - 1)] + [H.eq_sc(sum(ls, SC(ir.ZERO)), 1), (ls[0] < S.as_sc(1) / N).n, (ls[N - 1] > S.as_sc(1) / N).n]
+                tab[key] = ls
+            return ls
+
+        def eig_stub3(x, spectrum=spectrum, N=N):
+            p_ = A.plain(x) if isinstance(x, A.SymArray) else np.asarray(x, dtype=object)
+            lead = p_.shape[:-2]
+            flat = p_.reshape((-1, N, N))
+            out = np.empty((flat.shape[0], N), dtype=object)
+            for r in range(flat.shape[0]):
+                out[r, :] = spectrum(flat[r])
+            return A.sym_array(out.reshape(lead + (N,)), np.float64)
+        fac = facade.make_np_facade(linalg={'eigvalsh': eig_stub3})
+        pre0 = [(n_ > 0).n for n_ in nrms] if norm_given else [ir.bnot(H.eq_sc(sum((x.real * x.real + x.imag * x.imag for x in (S.as_sc(e) for e in H.elems(dms[0]))), SC(ir.ZERO)), S.as_sc(1) / N))]
+        pre0 += [H.eq_sc(sum((S.as_sc(x[k, k]) for k in range(N)), SC(ir.ZERO)), 1) for x in dms]
+        try:
+            paths, st = H.run_paths(lambda: E.get_ppt_boundary(dm, (dA, dB), dm_norm=nrm_arg, within_dm=within), pre0, np_facade=fac, feas_timeout_ms=1000, max_paths=64)
+        except S.EngineError as e:
+            chk.engine_error(f'get_ppt_boundary {cfg}', e)
+            continue
         chk.add_path_stats(st)
-        rp = ('c06', {'what': 'ppt_boundary', 'dims': [dA, dB]})
-        pt = A.plain(dm).reshape(dA, dB, dA, dB).transpose(0, 3, 2, 1).reshape(N, N)
-        ok_paths = [p_ for p_ in paths if p_.status == 'return']
-        for pi, path in enumerate(ok_paths[:8]):
-            bl, bu = (S.as_sc(x) for x in path.value)
-            n_cap = len(captured)
-            # the stubs are shared by all paths of this exploration: the last two captured arguments belong to the last path; the routing claim only needs the arguments
-            c_pt, c_dm = captured[-2], captured[-1]
-            l_pt, l_dm = lam_sets[-2], lam_sets[-1]
-            routing = ir.band(ir.band_all(H.eq_sc(a, b) for a, b in zip(H.elems(c_pt), H.elems(pt))), ir.band_all(H.eq_sc(a, b) for a, b in zip(H.elems(c_dm), H.elems(dm))))
-            chk.add(f'get_ppt_boundary({dA},{dB}): eigen-solver receives the partial transpose, then dm (path {pi})', [], routing, key='get_ppt_boundary routing', replay=rp)
-            if pi == len(ok_paths[:8]) - 1:
-                bu_pt = -(S.as_sc(1) / N) * nrm / (l_pt[0] - S.as_sc(1) / N) if False else None
-        chk.add(f'get_ppt_boundary({dA},{dB}) returns on every path', [], ir.bconst(len(ok_paths) == len(paths) and len(paths) > 0), key='get_ppt_boundary raises', replay=rp)
+        rp = ('c06', {'what': 'ppt_boundary', 'dims': [dA, dB], 'batch': list(bshape), 'within_dm': within, 'norm_given': norm_given})
+        for pi, path in enumerate(paths[:8]):
+            if path.status != 'return':
+                chk.add(f'get_ppt_boundary {cfg} raises {type(path.value).__name__}', pre0 + path.pc + path.facts, ir.FALSE, key='get_ppt_boundary raises', replay=rp)
+                continue
+            bl_a, bu_a = path.value
+            if tuple(np.shape(bl_a)) != bshape or tuple(np.shape(bu_a)) != bshape:
+                chk.add(f'get_ppt_boundary {cfg}: output shape', [], ir.FALSE, key='get_ppt_boundary shape', replay=rp)
+                continue
+            bls, bus = [S.as_sc(x) for x in H.elems(bl_a)], [S.as_sc(x) for x in H.elems(bu_a)]
+            with path.resume():
+                t = S.sc_var(f't{tag}')
+                for b in range(B):
+                    ptm = A.plain(dms[b]).reshape(dA, dB, dA, dB).transpose(0, 3, 2, 1).reshape(N, N)
+                    l_pt, l_dm = spectrum(ptm), spectrum(A.plain(dms[b]))
+                    nb = nrms[b] if norm_given else S.as_sc(numqi.gellmann.dm_to_gellmann_norm(dms[b]))
+                    ev = lambda ls, beta, i: S.as_sc(1) / N + beta * (ls[i] - S.as_sc(1) / N) / nb
+                    sets = [l_pt, l_dm] if within else [l_pt]
+                    pre = pre0 + path.pc + path.facts + [c for k, c in path.side]
+                    bl, bu = bls[b], bus[b]
+                    chk.add(f'get_ppt_boundary {cfg} item {b}: beta_l < 0 < beta_u', pre + path.facts, ir.band((bl < 0).n, (bu > 0).n), key='get_ppt_boundary sign', replay=rp)
+                    inside = [(t > bl).n, (t < bu).n]
+                    chk.add(f'get_ppt_boundary {cfg} item {b}: strictly inside, every eigenvalue of the state{" and" if within else "\'s"} partial transpose is positive', pre + path.facts + inside,
+                            ir.band_all(ir.rcmp('lt', ir.ZERO, ev(ls, t, i).re) for ls in sets for i in range(N)), key='get_ppt_boundary not a threshold (inside)', replay=rp)
+                    chk.add(f'get_ppt_boundary {cfg} item {b}: beyond beta_u some eigenvalue is negative', pre + path.facts + [(t > bu).n],
+                            ir.bor_all(ir.rcmp('lt', ev(ls, t, 0).re, ir.ZERO) for ls in sets), key='get_ppt_boundary not a threshold (outside, upper)', replay=rp)
+                    chk.add(f'get_ppt_boundary {cfg} item {b}: below beta_l some eigenvalue is negative', pre + path.facts + [(t < bl).n],
+                            ir.bor_all(ir.rcmp('lt', ev(ls, t, N - 1).re, ir.ZERO) for ls in sets), key='get_ppt_boundary not a threshold (outside, lower)', replay=rp)
+                chk.add(f'reach get_ppt_boundary {cfg} (path {pi})', pre0 + path.pc + path.facts, ir.TRUE, kind='reach')
+        chk.add(f'get_ppt_boundary {cfg} returns on some path', [], ir.bconst(any(p_.status == 'return' for p_ in paths)), key='get_ppt_boundary raises', replay=rp)
     chk.solve(timeout_s=60 if quick else 300)
